@@ -15,6 +15,9 @@ import time
 import z3
 
 
+FORKPROF = {} if os.environ.get("PYVC_FORKPROF") else None
+
+
 class VCError(Exception):
     """checker-level error (exit 3), never a violation"""
 
@@ -104,6 +107,7 @@ class PathCtx:
         self.notes = []  # axioms / inlined helpers / opaque calls used on this path
         self.n_pc = 0
         self.no_fork = False
+        self.interp = None
         self.tainted = False  # a refuted/undecided obligation was assumed: pc may be unsat
         self.premises = []
 
@@ -167,6 +171,11 @@ class PathCtx:
             if can_t and can_f:
                 self.engine.push_work(self.trace + [False])
                 choice = True
+                if FORKPROF is not None:
+                    I = getattr(self, "interp", None)
+                    n = getattr(I, "cur_stmt", None) if I is not None else None
+                    key = (I.stack[-1] if I is not None and I.stack else "?", getattr(n, "lineno", 0))
+                    FORKPROF[key] = FORKPROF.get(key, 0) + 1
             elif can_t:
                 choice = True
             elif can_f:
